@@ -11,3 +11,10 @@ import "github.com/bmeg/grip/jobstorage"
 func (server *GripServer) VerifInitJobStorage(dir string) {
 	server.jStorage = jobstorage.NewFSJobStorage(dir)
 }
+
+// VerifUpdateGraphMap recomputes the graph routing table. Outside of this hook
+// the first computation happens inside Serve, right after the listeners are
+// opened; the verification harness drives the handlers in process.
+func (server *GripServer) VerifUpdateGraphMap() {
+	server.updateGraphMap()
+}
